@@ -196,3 +196,104 @@ def _domain_des_var_nodes(n):
 
 DOMAIN = dict(globals().get('DOMAIN', {}))
 DOMAIN[A + 'DSG.des_var_nodes'] = _domain_des_var_nodes
+
+
+# ---------------------------------------------------------------- value accessors of a graph (C08, C16, C17)
+# the stored design-variable / metric values are only reachable through these; the dicts handed out are fresh copies
+# (C08: a caller that edits the returned dict never changes what the graph reports); setting a metric value touches
+# that one key only.  These replace the formerly *assumed* inline specs of `graph_instance.des_var_value` and
+# `dsg.set_metric_value` in the callers' contracts (c_processor, c_metrics).
+SAME_DICT = ("forall('x:Ref', (x in {a}) == (x in {b}) and implies(x in {a}, {a}[x] == {b}[x]))")
+CONTRACTS[A + 'DSG.des_var_value'] = dict(
+    properties=['C16', 'C08'],
+    types={'self': 'Ref[DSG]', 'des_var_node': 'Ref'},
+    returns='Optional[Real]',
+    ensures={
+        'stored-value-or-none': ('property', 'result == ite(des_var_node in self._des_var_values, self._des_var_values[des_var_node], None)'),
+    },
+    modifies=[],
+)
+CONTRACTS[A + 'DSG.des_var_values'] = dict(
+    properties=['C08', 'C16'],
+    types={'self': 'Ref[DSG]'},
+    returns='Dict[Ref,Real]',
+    ensures={
+        'same-content': ('property', SAME_DICT.format(a='result', b='self._des_var_values')),
+        'independent-object': ('property', 'fresh(result)'),
+    },
+    modifies=[],
+)
+CONTRACTS[A + 'DSG.metric_value'] = dict(
+    properties=['C17', 'C08'],
+    types={'self': 'Ref[DSG]', 'metric_node': 'Ref'},
+    returns='Optional[Real]',
+    ensures={
+        'stored-value-or-none': ('property', 'result == ite(metric_node in self._metric_values, self._metric_values[metric_node], None)'),
+    },
+    modifies=[],
+)
+CONTRACTS[A + 'DSG.metric_values'] = dict(
+    properties=['C08', 'C17'],
+    types={'self': 'Ref[DSG]'},
+    returns='Dict[Ref,Real]',
+    ensures={
+        'same-content': ('property', SAME_DICT.format(a='result', b='self._metric_values')),
+        'independent-object': ('property', 'fresh(result)'),
+    },
+    modifies=[],
+)
+CONTRACTS[A + 'DSG.set_metric_value'] = dict(
+    properties=['C17', 'C08'],
+    types={'self': 'Ref[DSG]', 'metric_node': 'Ref', 'value': 'Real'},
+    ensures={
+        'value-stored': ('property', 'metric_node in self._metric_values and self._metric_values[metric_node] == value'),
+        'other-keys-untouched': ('property', "forall('x:Ref', implies(x != metric_node, (x in self._metric_values) == (x in old(self._metric_values)) and implies(x in self._metric_values, self._metric_values[x] == old(self._metric_values)[x])))"),
+    },
+    modifies=['self._metric_values'],
+)
+
+
+def _domain_value_accessors(which):
+    def gen(n):
+        import random, os
+        from adsg_core.graph.adsg_basic import BasicDSG
+        from adsg_core.graph.adsg_nodes import NamedNode, DesignVariableNode, MetricNode
+        rng = random.Random(8700 + int(os.environ.get('VERIF_SEED', '0') or 0))
+        for _ in range(n):
+            root = NamedNode('root')
+            dvs = [DesignVariableNode(f'd{i}', bounds=(0., 1. + i)) for i in range(rng.randint(1, 3))]
+            mets = [MetricNode(f'm{i}', direction=-1) for i in range(rng.randint(1, 3))]
+            dsg = BasicDSG()
+            dsg.add_edges([(root, x) for x in dvs + mets])
+            dsg = dsg.set_start_nodes({root})
+            for d in dvs:
+                if rng.random() < 0.6:
+                    dsg.set_des_var_value(d, rng.random())
+            for m in mets:
+                if rng.random() < 0.6:
+                    dsg.set_metric_value(m, rng.choice([-1.5, 0., 2., 7.25]))
+            uni = {'Ref': dvs + mets + [root]}
+            own = (dsg._des_var_values, dsg._metric_values)
+            env = {'self': dsg, 'fresh': (lambda r, own=own: all(r is not o for o in own))}
+            if which == 'des_var_value':
+                node = rng.choice(dvs)
+                env['des_var_node'] = node
+                yield (env, (lambda dsg=dsg, node=node: dsg.des_var_value(node)), uni, f'des_var_value({node.name}) with {dsg._des_var_values}')
+            elif which == 'metric_value':
+                node = rng.choice(mets)
+                env['metric_node'] = node
+                yield (env, (lambda dsg=dsg, node=node: dsg.metric_value(node)), uni, f'metric_value({node.name}) with {dsg._metric_values}')
+            elif which == 'des_var_values':
+                yield (env, (lambda dsg=dsg: dsg.des_var_values), uni, f'des_var_values with {dsg._des_var_values}')
+            elif which == 'metric_values':
+                yield (env, (lambda dsg=dsg: dsg.metric_values), uni, f'metric_values with {dsg._metric_values}')
+            else:
+                node, value = rng.choice(mets), rng.choice([-3., 0., 1.5])
+                env.update(metric_node=node, value=value)
+                yield (env, (lambda dsg=dsg, node=node, value=value: dsg.set_metric_value(node, value)), uni,
+                       f'set_metric_value({node.name}, {value}) with {dsg._metric_values}')
+    return gen
+
+
+for _w in ('des_var_value', 'des_var_values', 'metric_value', 'metric_values', 'set_metric_value'):
+    DOMAIN[A + 'DSG.' + _w] = _domain_value_accessors(_w)
